@@ -804,6 +804,10 @@ fn compare(c: &mut Ctx) {
         c.res.violate("malformed_outbound_frame", e);
         return;
     }
+    if let Some(e) = wire::first_surplus(&frames) {
+        c.res.violate("malformed_outbound_frame", e);
+        return;
+    }
     let chans: Vec<u16> = c.want.keys().copied().collect();
     for ch in chans {
         let got: Vec<&wire::WFrame> = frames.iter().filter(|f| f.ch == ch).collect();
